@@ -30,6 +30,7 @@ type consCase struct {
 	After             bool   // the pattern line of the consumer's own level comes after the line naming the function
 	PName             string // name of the second parameter ("" = none)
 	LocalCtx          bool   // `goverter:context <PName>` on the method
+	Shared            bool   // the function is shared with other converters / methods (same name for the same kind and parameter)
 	ConvName, FuncNam string
 }
 
@@ -110,25 +111,40 @@ func (c *consCase) source() string {
 	} else {
 		fmt.Fprintf(&b, "\tConvert(source In) Out\n}\n\n")
 	}
-	switch c.Kind {
-	case "default":
-		fmt.Fprintf(&b, "func %s(source In%s) Out { return Out{} }\n\n", c.FuncNam, second)
-	case "mapfunc":
-		fmt.Fprintf(&b, "func %s(source In%s) string { return \"\" }\n\n", c.FuncNam, second)
-	case "extend":
-		fmt.Fprintf(&b, "func %s(source X%s) Y { return Y{} }\n\n", c.FuncNam, second)
+	if !c.Shared {
+		b.WriteString(c.funcDecl())
 	}
 	return b.String()
 }
 
+// funcDecl is the declaration of the function the case names (emitted once per package for shared functions).
+func (c *consCase) funcDecl() string {
+	second := ""
+	if c.PName != "" {
+		second = ", " + c.PName + " int"
+	}
+	switch c.Kind {
+	case "default":
+		return fmt.Sprintf("func %s(source In%s) Out { return Out{} }\n\n", c.FuncNam, second)
+	case "mapfunc":
+		return fmt.Sprintf("func %s(source In%s) string { return \"\" }\n\n", c.FuncNam, second)
+	case "extend":
+		return fmt.Sprintf("func %s(source X%s) Y { return Y{} }\n\n", c.FuncNam, second)
+	}
+	return ""
+}
+
 func runConsumers(e *env) error {
-	e.rep.Rule += "; consumers: converters whose arg:context:regex is written on the command line / converter / method ({absent, ^ctx, ^oth, ^(ctx|oth)}^3, before or after the line naming the function) x the consumer of a signature (the method itself, default constructor, map|FUNC function, extend function) x the name of a second parameter {none, ctxA, othA, plain, local context}: function definitions produced by the real configuration stage (comments.ParseDocs + config per converter) vs Gv.Signature.parse under effPattern/consumerOpts (quick: a third of the order-free grid; thorough: all)"
+	e.rep.Rule += "; consumers: converters whose arg:context:regex is written on the command line / converter / method ({absent, ^ctx, ^oth, ^(ctx|oth)}^3, before or after the line naming the function) x the consumer of a signature (the method itself, default constructor, map|FUNC function, extend function) x the name of a second parameter {none, ctxA, othA, plain, local context}, each function either private to its converter or SHARED by all converters of the package (so a per-use classification cannot be cached across uses): function definitions produced by the real configuration stage (comments.ParseDocs + config per converter) vs Gv.Signature.parse under effPattern/consumerOpts (quick: a third of the order-free grid; thorough: all)"
 	var cases []*consCase
 	id := 0
 	add := func(c consCase) {
 		c.ID = id
 		c.ConvName = fmt.Sprintf("Conv%d", id)
 		c.FuncNam = fmt.Sprintf("Fn%d", id)
+		if c.Shared {
+			c.FuncNam = "Sh" + strings.ToUpper(c.Kind[:1]) + c.Kind[1:] + "P" + c.PName
+		}
 		id++
 		cc := c
 		cases = append(cases, &cc)
@@ -151,6 +167,12 @@ func runConsumers(e *env) error {
 					}
 				}
 				add(consCase{Kind: "method", CLI: cli, Conv: conv, Meth: meth, PName: "plain", LocalCtx: true})
+				// the SAME function named by many converters whose patterns differ: its parameters must be classified per use
+				for _, kind := range []string{"default", "mapfunc", "extend"} {
+					for _, pn := range []string{"ctxA", "othA"} {
+						add(consCase{Kind: kind, CLI: cli, Conv: conv, Meth: meth, PName: pn, Shared: true})
+					}
+				}
 			}
 		}
 	}
@@ -168,8 +190,13 @@ func runConsumers(e *env) error {
 		root := filepath.Join(e.scratch, "consumers", fmt.Sprint(len(reqs)))
 		var src strings.Builder
 		src.WriteString("package p\n\ntype In struct{ A int }\ntype Out struct {\n\tA int\n\tC string\n}\ntype X struct{ V int }\ntype Y struct{ V int }\n\n")
+		sharedSeen := map[string]bool{}
 		for _, c := range group {
 			src.WriteString(c.source())
+			if c.Shared && !sharedSeen[c.FuncNam] {
+				sharedSeen[c.FuncNam] = true
+				src.WriteString(c.funcDecl())
+			}
 		}
 		if err := scratch.Write(root, scratch.Tree{"go.mod": "module example.org/cons\n\ngo 1.18\n", "p/p.go": src.String()}); err != nil {
 			return err
